@@ -31,6 +31,8 @@ let pay_ s : M.pay =
   | [Atom "var"; v] -> M.PVar (str_ v)
   | [Atom "lit"; n] -> M.PStruct (str_ n)
   | [Atom "other"] -> M.POther
+  | [Atom "variant"; e; v; st] -> M.PVariant (str_ e, str_ v, bool_ st)
+  | [Atom "new"; segs; n] -> M.PNew (list_ str_ segs, str_ n)
   | _ -> failwith "c09: bad payload"
 
 let item_ s : M.item =
